@@ -20,6 +20,8 @@ pub enum Msg {
     Edit { changes: Value },
     /// an edit of the second open document (scenarios with `v2`)
     Edit2 { changes: Value },
+    /// a didChange for a document the server does not track (an `untitled:` buffer)
+    EditUntracked,
 }
 
 #[derive(Clone, Debug)]
@@ -62,6 +64,8 @@ pub fn scenarios() -> Vec<Scenario> {
         Scenario { name: "two-edits-moving-diagnostics", v1: v_err, msgs: vec![edit(0, 0, 0, 0, "\n"), edit(0, 0, 0, 0, "\n")], v2: None },
         // one notification carrying two content changes, as the last edit of the document
         Scenario { name: "multi-change-notification", v1, msgs: vec![Msg::Req { method: "textDocument/hover", params: tdp(0, 8) }, Msg::Edit { changes: json!([{"range": {"start": {"line": 0, "character": 7}, "end": {"line": 0, "character": 11}}, "text": "first"}, {"range": {"start": {"line": 0, "character": 7}, "end": {"line": 0, "character": 12}}, "text": "start"}]) }], v2: None },
+        // an edit of a document the server does not track must not disturb the diagnostics of a tracked one
+        Scenario { name: "edit-then-untracked-edit", v1, msgs: vec![edit(0, 12, 0, 13, ""), Msg::EditUntracked], v2: None },
         // two open documents: an edit of one cancels the running diagnostics of the other; both must end with the diagnostics of their final texts
         Scenario { name: "two-documents-edit-each", v1, msgs: vec![edit(0, 12, 0, 13, ""), Msg::Edit2 { changes: json!([{"range": {"start": {"line": 0, "character": 0}, "end": {"line": 0, "character": 0}}, "text": "// c\n"}]) }], v2: Some("pub fn other( {\n  1\n}\n") },
         Scenario { name: "refs-edit-completion", v1, msgs: vec![Msg::Req { method: "textDocument/references", params: json!({"textDocument": {"uri": doc_uri()}, "position": {"line": 4, "character": 4}, "context": {"includeDeclaration": true}}) }, edit(5, 2, 5, 3, "x * 2 + x"), Msg::Req { method: "textDocument/completion", params: tdp(1, 3) }], v2: None },
@@ -223,6 +227,9 @@ fn send_msg(p: &mut Proc, sc: &Scenario, i: usize) {
         Msg::Edit2 { changes } => {
             let version = 2 + sc.msgs[..i].iter().filter(|m| matches!(m, Msg::Edit2 { .. })).count();
             p.send(&json!({"jsonrpc": "2.0", "method": "textDocument/didChange", "params": {"textDocument": {"uri": doc2_uri(), "version": version}, "contentChanges": changes}}));
+        }
+        Msg::EditUntracked => {
+            p.send(&json!({"jsonrpc": "2.0", "method": "textDocument/didChange", "params": {"textDocument": {"uri": "untitled:Untitled-1", "version": 2 + i}, "contentChanges": [{"text": "fn u() { 1 }\n"}]}}));
         }
     }
 }
@@ -435,6 +442,10 @@ pub fn sequential(sc: &Scenario) -> Result<Sequential, String> {
                 // wait until the server has gone quiet (physically: every thread asleep, nothing to
                 // read); whether this edit produced a fresh diagnostics message is not the session's
                 // business - what counts is the last one published when everything is over
+                settle(&mut p, &mut out);
+            }
+            Msg::EditUntracked => {
+                p.send(&json!({"jsonrpc": "2.0", "method": "textDocument/didChange", "params": {"textDocument": {"uri": "untitled:Untitled-1", "version": 2 + i}, "contentChanges": [{"text": "fn u() { 1 }\n"}]}}));
                 settle(&mut p, &mut out);
             }
             Msg::Edit2 { changes } => {
@@ -692,7 +703,7 @@ pub fn run(tier: Tier) -> i32 {
                 rep.violation(v);
             }
         }
-        l.bound = format!("all interleavings of the client's sends (C), the main loop's and the blocking tasks' yield points with <= {bound} preemptions (a send is a voluntary yield of the client); {} messages ({}); longest run {max_points} scheduling decisions; {rounds} deviation rounds", sc.msgs.len(), sc.msgs.iter().map(|m| match m { Msg::Req { method, .. } => method.rsplit('/').next().unwrap_or(method).to_string(), Msg::Edit { .. } => "didChange".into(), Msg::Edit2 { .. } => "didChange(other document)".into() }).collect::<Vec<_>>().join(", "));
+        l.bound = format!("all interleavings of the client's sends (C), the main loop's and the blocking tasks' yield points with <= {bound} preemptions (a send is a voluntary yield of the client); {} messages ({}); longest run {max_points} scheduling decisions; {rounds} deviation rounds", sc.msgs.len(), sc.msgs.iter().map(|m| match m { Msg::Req { method, .. } => method.rsplit('/').next().unwrap_or(method).to_string(), Msg::Edit { .. } => "didChange".into(), Msg::Edit2 { .. } => "didChange(other document)".into(), Msg::EditUntracked => "didChange(untracked document)".into() }).collect::<Vec<_>>().join(", "));
         rep.layer(l);
     }
     rep.distinct_nontrivial = distinct_traces.len() as u64;
